@@ -373,7 +373,7 @@ theorem checkTypeNames_loc : ∀ (f : List BTree) (e : BErr), checkTypeNames f =
       exact ⟨t', List.mem_cons_of_mem _ ht', hid⟩
 
 mutual
-  theorem pathsTree_loc (anc : List BDir) : ∀ (t : BTree) (last : Option Nat) (e : BErr),
+  theorem pathsTree_loc (anc : List BDir) : ∀ (t : BTree) (last : List Nat) (e : BErr),
       pathsTree anc t last = .error e → ∃ d ∈ flat t, d.id = e.id
     | .node d kids, last, e, h => by
       have self : ∀ m, (⟨d.id, m⟩ : BErr) = e → ∃ d' ∈ flat (.node d kids), d'.id = e.id := by
@@ -404,7 +404,7 @@ mutual
         · exact self _ (by injection h)
         · exact sub h
       · exact sub h
-  theorem pathsForest_loc (anc : List BDir) : ∀ (f : List BTree) (last : Option Nat) (e : BErr),
+  theorem pathsForest_loc (anc : List BDir) : ∀ (f : List BTree) (last : List Nat) (e : BErr),
       pathsForest anc f last = .error e → ∃ d ∈ flatF f, d.id = e.id
     | [], last, e, h => by simp [pathsForest] at h
     | t :: r, last, e, h => by
@@ -872,7 +872,7 @@ theorem compile_located {banned : List Kind} {f : List BTree} {e : BErr} (h : co
   · obtain ⟨t, ht, hid⟩ := checkTypeNames_loc f e h
     exact top ht hid
   rcases bind_err h with h | ⟨x, _, h⟩
-  · exact pathsForest_loc [] f none e h
+  · exact pathsForest_loc [] f [] e h
   have key : (∃ t r, f = t :: r ∧ t.dir.id = e.id) ∨
       (do let c ← addForest banned [] f c₀
           validateInfo c
@@ -1003,8 +1003,8 @@ theorem step_server_dup {banned : List Kind} {e : Ent} {c : Cat} (hk : e.d.kind 
   simp [fail, hne, hany]
 
 /-- a failing fold makes `compile` fail with the same diagnostic, when the stages before the fold pass -/
-theorem compile_run_error {banned : List Kind} {f : List BTree} {c₀ : Cat} {x : Option Nat} {err : BErr}
-    (h0 : collectTags f {} = .ok c₀) (h1 : checkTypeNames f = .ok ()) (h2 : pathsForest [] f none = .ok x)
+theorem compile_run_error {banned : List Kind} {f : List BTree} {c₀ : Cat} {x : List Nat} {err : BErr}
+    (h0 : collectTags f {} = .ok c₀) (h1 : checkTypeNames f = .ok ()) (h2 : pathsForest [] f [] = .ok x)
     (h3 : ∀ t r, f = t :: r → t.dir.kind = .Jsight) (hr : run banned (flatAF [] f) c₀ = .error err) :
     compile banned f = .error err := by
   unfold compile
